@@ -457,6 +457,7 @@ func checkC02(w *World, r *Report) {
 	// the pool hand-off rule
 	checkR01_4(w, r)
 	checkTemplateTreeNeverReleased(w, r, "R02.5")
+	checkSharedForeignObjects(w, r, reach)
 }
 
 func sortedKeys(m map[string]bool) []string {
@@ -963,4 +964,74 @@ func checkLocksNotCopied(w *World, r *Report) {
 		}
 	}
 	r.ok("R02.6", "(package)", "no struct with a mutex is passed by value", "-", fmt.Sprintf("%d by-value struct parameters/receivers examined", n), true)
+}
+
+// goroutineSafePkgs: packages whose pointer-receiver types are documented safe for concurrent use
+// (or immutable after construction) as far as this code base uses them.
+var goroutineSafePkgs = map[string]bool{
+	"sync": true, "sync/atomic": true, "regexp": true, "log": true, "os": true, "time": true, "reflect": true,
+	"strings": false, "bytes": false, "math/rand": false, "bufio": false,
+}
+
+// checkSharedForeignObjects — R02.7: objects of other packages that all renders share are only
+// used through types that are safe for concurrent use.  In code reachable from the concurrent API,
+// a pointer-receiver method of a non-twig type called on a package-level variable (or on what a
+// package-level pointer variable holds) belongs to one of the packages listed as goroutine-safe
+// (sync, sync/atomic, regexp, log, os, time, reflect) — a *rand.Rand, *strings.Builder,
+// *bytes.Buffer or *bufio.Writer kept in a global is mutated by every call without a lock of its own.
+func checkSharedForeignObjects(w *World, r *Report, reach map[*ssa.Function]bool) {
+	n := 0
+	for _, fn := range w.pkgFuncs() {
+		if !reach[fn] {
+			continue
+		}
+		instrsOf(fn, func(in ssa.Instruction) {
+			c, ok := in.(ssa.CallInstruction)
+			if !ok {
+				return
+			}
+			h := c.Common().StaticCallee()
+			if h == nil || isTwigFn(h) || h.Signature.Recv() == nil || len(c.Common().Args) == 0 {
+				return
+			}
+			if _, isPtr := h.Signature.Recv().Type().(*types.Pointer); !isPtr {
+				return
+			}
+			recv := unspill(c.Common().Args[0])
+			var g *ssa.Global
+			switch x := recv.(type) {
+			case *ssa.Global:
+				g = x
+			case *ssa.UnOp:
+				if gl, ok := x.X.(*ssa.Global); ok && x.Op == token.MUL {
+					g = gl
+				}
+			}
+			if g == nil || g.Pkg == nil || g.Pkg.Pkg.Path() != twigPath {
+				return
+			}
+			n++
+			pkgPath := ""
+			if h.Pkg != nil {
+				pkgPath = h.Pkg.Pkg.Path()
+			}
+			construct := "shared " + g.Name() + " is used through a goroutine-safe type"
+			locks := false
+			instrsOf(fn, func(x ssa.Instruction) {
+				if lc, ok := x.(ssa.CallInstruction); ok {
+					if lf := lc.Common().StaticCallee(); lf != nil && lf.Pkg != nil && lf.Pkg.Pkg.Path() == "sync" && lf.Name() == "Lock" {
+						locks = true
+					}
+				}
+			})
+			if goroutineSafePkgs[pkgPath] {
+				r.ok("R02.7", ssaName(fn), construct, w.posOf(in.Pos()), pkgPath+" types are safe for concurrent use", false)
+			} else if locks {
+				r.ok("R02.7", ssaName(fn), construct, w.posOf(in.Pos()), "the function takes a write lock (extent of the lock region: R02.3)", false)
+			} else {
+				r.bad("R02.7", ssaName(fn), construct, w.posOf(in.Pos()), "the package-level "+g.Name()+" is a "+deref(g.Type()).String()+" and "+h.String()+" changes it without synchronisation: calls that run at the same time corrupt its state (a data race; for a *rand.Rand an index out of range inside Render)")
+			}
+		})
+	}
+	r.floor("methods of foreign types called on package-level objects", n, 5)
 }
